@@ -9,6 +9,11 @@
 //! `CascadesOptimizer::extract_plan` puts a Sort enforcer under an operator), and — once switched on with
 //! `record_plans(true)` — every plan `CascadesOptimizer::optimize` returns is kept as a plain tree (`take_last_plan`):
 //! operator names, the ordering each node declares, the ordering each node requires of each child.
+//!
+//! Join operators: `run_join_operators` hands a join (kind, condition, two inputs given as literal rows) to the
+//! implementation rules (`rules::implementation_rules`) and runs *every* physical operator they offer — nested loop
+//! always, hash join and merge join (over Sort executors on the orderings it requires) for equi-joins — directly on the
+//! two inputs (Values executors), whatever the cost model would have chosen.
 
 use std::collections::HashMap;
 
@@ -29,8 +34,11 @@ use crate::{
             },
             PhysicalPlan,
             physical::OrderingSpec,
+            PhysicalOperator,
+            logical::{SortExpr, SortOp},
+            physical::PhysValuesOp,
             prop::{LogicalProperties, PhysicalProperties, RequiredProperties},
-            rules::transformation_rules,
+            rules::{implementation_rules, transformation_rules},
         },
     },
     types::{Blob, DataTypeKind, Int32, Int64, ObjectId, bool::Bool},
@@ -465,4 +473,97 @@ pub(crate) fn plan_chosen(p: &PhysicalPlan) {
             *g = Some(phys_tree(p));
         }
     }
+}
+
+// ------------------------------------------------------------------------------------------------ join operators
+
+fn typed_lit(v: &VLit, ty: VTy) -> DataType {
+    match (v, ty) {
+        (VLit::Int(i), VTy::BigInt) => DataType::BigInt(Int64(*i)),
+        (VLit::Int(i), VTy::Int) => DataType::Int(Int32(*i as i32)),
+        _ => lit(v),
+    }
+}
+
+fn values_of(tb: &VTable, schema: &Schema, rows: &[Vec<VLit>]) -> crate::runtime::verif_ops::Values {
+    let exprs: Vec<Vec<BoundExpression>> = rows
+        .iter()
+        .map(|r| {
+            r.iter()
+                .enumerate()
+                .map(|(i, v)| BoundExpression::Literal { value: typed_lit(v, tb.cols.get(i).map(|c| c.0).unwrap_or(VTy::Int)) })
+                .collect()
+        })
+        .collect();
+    crate::runtime::verif_ops::Values::new(&PhysValuesOp::new(exprs, schema.clone()))
+}
+
+fn sort_for(required: &RequiredProperties, schema: &Schema) -> SortOp {
+    // the Sort `CascadesOptimizer::insert_sort_enforcer` builds for a required ordering
+    let exprs: Vec<SortExpr> = required
+        .ordering
+        .iter()
+        .map(|spec| SortExpr {
+            expr: BoundExpression::ColumnBinding(Binding {
+                table_id: None,
+                scope_index: 0,
+                column_idx: spec.column_idx,
+                data_type: schema.column(spec.column_idx).map(|c| c.datatype()).unwrap_or(DataTypeKind::Null),
+            }),
+            asc: spec.ascending,
+            nulls_first: spec.nulls_first,
+        })
+        .collect();
+    SortOp::new(exprs, schema.clone())
+}
+
+fn drain(mut ex: impl crate::runtime::Executor) -> Result<Vec<Vec<VLit>>, String> {
+    ex.open().map_err(|e| e.to_string())?;
+    let mut out = Vec::new();
+    while let Some(row) = ex.next().map_err(|e| e.to_string())? {
+        out.push((0..row.len()).map(|i| unlit(&row[i])).collect());
+    }
+    ex.close().map_err(|e| e.to_string())?;
+    Ok(out)
+}
+
+/// Every physical operator the implementation rules offer for `left <kind> JOIN right ON on`, run on the given rows:
+/// (operator name, its output rows in output order or the error it raised).  `tables` = the two inputs' columns.
+pub fn run_join_operators(
+    tables: &[VTable; 2],
+    kind: &'static str,
+    on: Option<&VExpr>,
+    left: &[Vec<VLit>],
+    right: &[Vec<VLit>],
+) -> Result<Vec<(String, Result<Vec<Vec<VLit>>, String>)>, String> {
+    use crate::runtime::verif_ops::{HashJoin, MergeJoin, NestedLoopJoin, QuickSort};
+    let plan = VPlan::Join(kind, on.cloned(), Box::new(VPlan::Scan(0)), Box::new(VPlan::Scan(1)));
+    let mut memo = Memo::new();
+    let (root, _) = insert(&mut memo, tables, &plan).ok_or_else(|| "join cannot be inserted".to_string())?;
+    let expr = memo.get_group(root).and_then(|g| g.logical_exprs.first()).cloned().ok_or_else(|| "no root expression".to_string())?;
+    let (ls, rs) = (table_schema(0, &tables[0]), table_schema(1, &tables[1]));
+    let mut out = Vec::new();
+    for rule in implementation_rules() {
+        if !rule.matches(&expr, &memo) {
+            continue;
+        }
+        let phys = rule.implement(&expr, &RequiredProperties::default(), &memo).map_err(|e| format!("{}: {}", rule.name(), e))?;
+        for p in phys {
+            let l = values_of(&tables[0], &ls, left);
+            let r = values_of(&tables[1], &rs, right);
+            let rows = match &p.op {
+                PhysicalOperator::NestedLoopJoin(op) => drain(NestedLoopJoin::new(op, l, r)),
+                PhysicalOperator::HashJoin(op) => drain(HashJoin::new(op, l, r, ls.clone(), rs.clone())),
+                PhysicalOperator::MergeJoin(op) => {
+                    let none = RequiredProperties::default();
+                    let sl = sort_for(&p.op.required_child_properties(0, &none), &ls);
+                    let sr = sort_for(&p.op.required_child_properties(1, &none), &rs);
+                    drain(MergeJoin::new(op, QuickSort::new(&sl, l), QuickSort::new(&sr, r), ls.clone(), rs.clone()))
+                }
+                other => Err(format!("unexpected operator {}", other.name())),
+            };
+            out.push((p.op.name().to_string(), rows));
+        }
+    }
+    Ok(out)
 }
